@@ -30,7 +30,7 @@ RESERVED_KW = {"rpc_timeout", "self"}       # documented proxy-side keyword / no
 VARIANTS = [("local", "blk"), ("local", "nb"), ("peer", "blk"), ("peer", "nb"), ("local", "nbrev"), ("peer", "nbrev")]
 
 BINDING = ["perName", "perName"]             # (blocking proxy, non-blocking proxy): set by translate() from the AST
-HELPER_PARAMS = [["context", "rpc_object_address", "method_name", "rpc_lock_token"]] * 2   # likewise
+HELPER_PARAMS = [[], []]                      # likewise: helper parameters a caller keyword can collide with (none since 266e9a5)
 
 _CLS = None
 
@@ -117,12 +117,8 @@ COLLIDING = ["context", "method_name", "rpc_object_address", "rpc_lock_token"]
 
 
 def _kwnames(rng, n):
-    """keyword names; the four names known to collide with the helper's parameters (known finding) are kept rare so that
-    most calls test something else"""
-    names = rng.sample([k for k in KW_POOL if k not in COLLIDING], n)
-    if rng.random() < 0.04:
-        names[rng.randrange(n)] = rng.choice(COLLIDING)
-    return names
+    """keyword names, including the four that used to collide with the helpers' own parameters (fixed by 266e9a5)"""
+    return rng.sample(KW_POOL, n)
 
 
 def gen_call(rng, qn, big=False):
@@ -1026,6 +1022,8 @@ class C02(Prop):
         "Python argument binding of the generated lambda stubs (*args/**kwargs against the helper signature) is modelled by "
         "stubKwargs; the helper parameter list is regenerated from the AST on every run",
         "_RpcThread's request FIFO and threads (C01/C03), the lock protocol itself (C04); here the lock state is an input of dispatch",
+        "failure branches of _SocketManager.send_message (message cannot be pickled / is too big / OS error: error reply to the "
+        "requester, and, since the C01 repair, an error reply in place of a lost reply) belong to C01; pickle.dumps is total in this model",
     ]
     extra_trusted = [
         "assumption named by proxy_eq_direct: pickle round-trips the argument, result and exception values of the call "
@@ -1300,13 +1298,13 @@ class C02(Prop):
         seen: dict = {}
         lines, outs, spans = [], [], []
         with T.installed():
-            # the Lean witness `proxy_eq_direct_false_for_pinned_params`, replayed on the real code (every helper parameter name)
+            # regression: the calls of `historical_keyword_collision` (and any helper parameter name the source has now)
             for nm in sorted(set(HELPER_PARAMS[0] + HELPER_PARAMS[1] + COLLIDING)):
                 plan = {"script": [{"m": "echo", "a": [], "k": [[nm, ["int", "0"]]]}], "seed": 0, "lock": None, "names": ["srv", "cli"]}
                 vs = [("local", "blk"), ("peer", "nb")]
                 for f in eval_script(plan, vs):
                     self._note_failure(res, seen, plan, f[0], f[1], f[2], f[3])
-                res.count("lean_witness_replays")
+                res.count("former_collision_keyword_replays")
                 res.note_case(("witness", nm))
             self._scripts(ctx, res, ctx.scale(220, 2000), 8, seen, lines, outs, spans)
             ctx.log(f"scripts done: {res.evaluations} calls compared, {len(res.failures)} failing signatures")
